@@ -346,10 +346,14 @@ impl ProofOutline {
         let mut forward_definitions = Vec::new();
         let mut backward_definitions = Vec::new();
 
+        // predicates mentioned by the lemmas seen so far: a later definition must not define them
+        let mut lemma_predicates: IndexSet<fol::Predicate> = IndexSet::new();
+
         for anf in specification.formulas {
             let anf = anf.replace_placeholders(placeholders);
             match anf.role {
                 fol::Role::Lemma | fol::Role::InductiveLemma => {
+                    lemma_predicates.extend(anf.formula.predicates());
                     let general_lemma: GeneralLemma = anf
                         .universal_closure_with_quantifier_joining()
                         .replace_placeholders(placeholders)
@@ -365,6 +369,9 @@ impl ProofOutline {
                 }
                 fol::Role::Definition => {
                     let predicate = anf.formula.definition(&taken_predicates)?;
+                    if lemma_predicates.contains(&predicate.data) {
+                        return Err(ProofOutlineError::TakenPredicate(predicate.data));
+                    }
                     taken_predicates.insert(predicate.data);
                     warnings.extend(predicate.warnings);
                     match anf.direction {
